@@ -61,7 +61,7 @@ TrOpt ==
      ELSE /\ Bad(IF e.out = "panic" THEN "opt_panic"
                  ELSE IF ~PrintOk(e.sw, ex) THEN "print_differs" ELSE "opt_protocol",
                  [out |-> e.out, sw |-> e.sw])
-          /\ objs' = Append(objs, [sw |-> e.sw, st |-> IF e.out = "ok" THEN "ok" ELSE "dead"])
+          /\ objs' = Append(objs, [sw |-> e.sw, st |-> IF e.out = "ok" THEN "ok" ELSE "dead", src |-> 0])
           /\ UNCHANGED <<cur, phase, den, prints>>
 
 OutBool(o) == o = "t"
@@ -118,7 +118,7 @@ TrReload ==
      ELSE /\ Bad(IF e.out = "panic" THEN "load_panic"
                  ELSE IF e.out # "ok" THEN "reload_fails" ELSE "reload_differs",
                  [out |-> e.out, via |-> e.via])
-          /\ objs' = Append(objs, [sw |-> <<>>, st |-> IF e.out = "ok" THEN "ok" ELSE "dead"])
+          /\ objs' = Append(objs, [sw |-> <<>>, st |-> IF e.out = "ok" THEN "ok" ELSE "dead", src |-> 0])
           /\ UNCHANGED <<cur, phase, den, prints>>
 
 (* ----- the textual layers on their own (C04, C07, C15) ----- *)
@@ -156,7 +156,16 @@ TrFound ==
      ELSE IF e.out = "some" /\ e.v # want THEN Bad("find_value", [key |-> key, repr |-> e.repr, got |-> e.v, want |-> want])
      ELSE Good
 
-TrNext == TrFound \/ TrIdent \/ TrFload \/ TrCore \/ TrCase \/ TrSkip \/ TrLoad \/ TrLoad2 \/ TrOpt \/ TrMatch \/ TrTri \/ TrValidate \/ TrSer \/ TrReload
+TrAlt ==
+  /\ IsEv("alt") /\ Adv
+  /\ IF phase = "loaded" /\ e.from + 1 \in DOMAIN objs /\ e.obj = Len(objs) /\ e.out = "ok"
+        /\ "alts" \in DOMAIN cur /\ e.i + 1 \in DOMAIN cur.alts
+     THEN LoadAlt(e.i, e.from, e.obj, e.out) /\ Good
+     ELSE /\ Bad(IF e.out = "panic" THEN "load_panic" ELSE "alt_fails", [out |-> e.out, i |-> e.i])
+          /\ objs' = Append(objs, [sw |-> <<>>, st |-> "dead", src |-> 0])
+          /\ UNCHANGED <<cur, phase, den, prints>>
+
+TrNext == TrAlt \/ TrFound \/ TrIdent \/ TrFload \/ TrCore \/ TrCase \/ TrSkip \/ TrLoad \/ TrLoad2 \/ TrOpt \/ TrMatch \/ TrTri \/ TrValidate \/ TrSer \/ TrReload
 
 TrSpec == TrInit /\ [][TrNext]_tvars
 
